@@ -298,6 +298,106 @@ func (n *normalizer) pureArg(e ast.Expr) bool {
 		if tv, ok := n.pkg.TypesInfo.Types[x.Fun]; ok && tv.IsType() && len(x.Args) == 1 {
 			return n.pureArg(x.Args[0])
 		}
+		if n.pureLibCall(x) {
+			for _, a := range x.Args {
+				if !n.pureArg(a) {
+					return false
+				}
+			}
+			if sel, ok := x.Fun.(*ast.SelectorExpr); ok && n.pkg.TypesInfo.Selections[sel] != nil {
+				return n.pureArg(sel.X)
+			}
+			return true
+		}
+	}
+	return false
+}
+
+// hasRealCall: e contains a call that is not a conversion.
+func (n *normalizer) hasRealCall(e ast.Expr) bool {
+	found := false
+	ast.Inspect(e, func(x ast.Node) bool {
+		if c, ok := x.(*ast.CallExpr); ok {
+			if tv, ok := n.pkg.TypesInfo.Types[c.Fun]; !ok || !tv.IsType() {
+				found = true
+			}
+		}
+		return !found
+	})
+	return found
+}
+
+// useCount: how often the callee's body mentions o.
+func (n *normalizer) useCount(fd *ast.FuncDecl, o types.Object) int {
+	k := 0
+	ast.Inspect(fd.Body, func(x ast.Node) bool {
+		if id, ok := x.(*ast.Ident); ok && n.pkg.TypesInfo.Uses[id] == o {
+			k++
+		}
+		return true
+	})
+	return k
+}
+
+// pureLibCall: a call of a standard-library function or method that only computes a value from
+// its operands (no clock, no I/O, no mutation): reordering it with other calls, or evaluating it
+// more than once, cannot be observed.
+func (n *normalizer) pureLibCall(x *ast.CallExpr) bool {
+	info := n.pkg.TypesInfo
+	var fn *types.Func
+	switch f := x.Fun.(type) {
+	case *ast.Ident:
+		if b, ok := info.Uses[f].(*types.Builtin); ok {
+			switch b.Name() {
+			case "len", "cap", "min", "max":
+				return true
+			}
+			return false
+		}
+		fn, _ = info.Uses[f].(*types.Func)
+	case *ast.SelectorExpr:
+		if sel := info.Selections[f]; sel != nil {
+			if sel.Kind() != types.MethodVal {
+				return false
+			}
+			fn, _ = sel.Obj().(*types.Func)
+			if _, isIface := sel.Recv().Underlying().(*types.Interface); isIface {
+				return false
+			}
+		} else {
+			fn, _ = info.Uses[f.Sel].(*types.Func)
+		}
+	}
+	if fn == nil || fn.Pkg() == nil {
+		return false
+	}
+	sig, _ := fn.Type().(*types.Signature)
+	switch fn.Pkg().Path() {
+	case "time":
+		if sig != nil && sig.Recv() != nil {
+			// value methods of time.Time and time.Duration compute from the receiver
+			if _, isPtr := sig.Recv().Type().(*types.Pointer); isPtr {
+				return false
+			}
+			rn := sig.Recv().Type().String()
+			return rn == "time.Time" || rn == "time.Duration"
+		}
+		switch fn.Name() {
+		case "Unix", "UnixMilli", "UnixMicro", "Date":
+			return true
+		}
+		return false
+	case "math", "math/bits", "cmp":
+		return true
+	case "net/netip":
+		if sig != nil && sig.Recv() != nil {
+			_, isPtr := sig.Recv().Type().(*types.Pointer)
+			return !isPtr
+		}
+		switch fn.Name() {
+		case "AddrFrom4", "AddrFrom16", "AddrPortFrom", "AddrFromSlice":
+			return true
+		}
 	}
 	return false
 }
@@ -406,7 +506,9 @@ type inlineOpts struct {
 	targets []string
 	handler string
 	avoid   map[string]bool
-	tail    bool // the call is the sole operand of a return statement: the callee's returns become the caller's
+	tail    bool   // the call is the sole operand of a return statement: the callee's returns become the caller's
+	direct  bool   // plain `targets (:)= f(...)`: results are assigned to the targets at each return, no failure handler
+	fresh   []bool // per target: a variable this very statement declares (a named result of the callee may stand for it)
 }
 
 func (n *normalizer) inlineCall(call *ast.CallExpr, file *ast.File, at token.Pos) (string, []string, bool) {
@@ -641,6 +743,9 @@ func (n *normalizer) inlineCallX(call *ast.CallExpr, file *ast.File, at token.Po
 		if !n.pureArg(arg) {
 			return false
 		}
+		if n.hasRealCall(arg) && n.useCount(fd, o) > 1 {
+			return false // a (pure) call is kept a single value: bound once to a temporary
+		}
 		for _, nm := range identsOf(arg) {
 			if declared[nm] {
 				return false
@@ -704,6 +809,15 @@ func (n *normalizer) inlineCallX(call *ast.CallExpr, file *ast.File, at token.Po
 		ri := 0
 		for _, f := range fd.Type.Results.List {
 			for _, nm := range f.Names {
+				if opts != nil && !tail && ri < len(opts.fresh) && opts.fresh[ri] && ri < len(temps) && !declared[temps[ri]] {
+					// the caller's freshly declared target variable is the callee's named result
+					if ro := info.Defs[nm]; ro != nil {
+						subst[ro] = temps[ri]
+						namedRes = append(namedRes, temps[ri])
+						ri++
+						continue
+					}
+				}
 				namedRes = append(namedRes, prefix+nm.Name)
 				fmt.Fprintf(&sb, "var %s%s %s\n_ = %s%s\n", prefix, nm.Name, types.TypeString(sig.Results().At(ri).Type(), q), prefix, nm.Name)
 				ri++
@@ -729,6 +843,8 @@ func (n *normalizer) inlineCallX(call *ast.CallExpr, file *ast.File, at token.Po
 	var avoid map[string]bool
 	if opts != nil && !tail {
 		avoid = opts.avoid
+	}
+	if opts != nil && !tail && !opts.direct {
 		retTail = func(z *ast.ReturnStmt) (string, bool) {
 			if n.retErrKind(fd, z, nres) == "fail" {
 				return opts.handler, true
@@ -795,7 +911,7 @@ func (n *normalizer) hoistTargets(exprs []ast.Expr) ([]*ast.CallExpr, bool) {
 				return true
 			}
 		}
-		return false
+		return n.pureLibCall(x)
 	}
 	var walk func(e ast.Expr)
 	walk = func(e ast.Expr) {
@@ -982,6 +1098,54 @@ func (n *normalizer) rewriteStmt(st ast.Stmt, file *ast.File) (string, bool) {
 		if ref := n.resolveCallee(multiCall); ref != nil && n.encl[rs] != nil && types.Identical(ref.sig.Results(), n.encl[rs].Results()) {
 			if txt, _, ok := n.inlineCallX(multiCall, file, st.Pos(), &inlineOpts{tail: true}); ok {
 				return txt, true
+			}
+		}
+	}
+	if as, isAs := st.(*ast.AssignStmt); isAs && multiCall != nil && len(targets) == 1 && targets[0] == multiCall &&
+		(as.Tok == token.ASSIGN || as.Tok == token.DEFINE) && len(as.Rhs) == 1 {
+		// `a, b (:)= helper(...)`: assign the results where the helper returns them, without temporaries
+		info := n.pkg.TypesInfo
+		var names []string
+		var fresh []bool
+		var decl strings.Builder
+		var missing []*types.Package
+		q := n.qualifierFor(file, &missing)
+		okAll := true
+		for _, l := range as.Lhs {
+			id, isId := l.(*ast.Ident)
+			if !isId || id.Name == "_" {
+				okAll = false
+				break
+			}
+			names = append(names, id.Name)
+			if o := info.Defs[id]; o != nil && as.Tok == token.DEFINE {
+				fresh = append(fresh, true)
+				fmt.Fprintf(&decl, "var %s %s\n_ = %s\n", id.Name, types.TypeString(o.Type(), q), id.Name)
+			} else {
+				fresh = append(fresh, false)
+			}
+		}
+		// a target that is also mentioned in an argument keeps the temporaries (evaluation order)
+		if okAll && len(missing) == 0 {
+			for _, a := range multiCall.Args {
+				for _, nm := range identsOf(a) {
+					for i, t := range names {
+						if nm == t && fresh[i] {
+							okAll = false // the argument refers to an outer variable of the same name
+						}
+					}
+				}
+			}
+		}
+		if okAll && len(missing) == 0 {
+			// locals of the helper that are called like a target are renamed: inside the helper's
+			// block the target's name must keep meaning the caller's variable
+			avoid := map[string]bool{}
+			for _, t := range names {
+				avoid[t] = true
+			}
+			if txt, _, ok := n.inlineCallX(multiCall, file, st.Pos(), &inlineOpts{targets: names, direct: true, fresh: fresh, avoid: avoid}); ok {
+				return "{\n" + decl.String() + txt + "\n}\n", true
 			}
 		}
 	}
